@@ -137,3 +137,11 @@ Fixpoint crun (c : hcfg) (st : hstate * list blk) (ops : list hop) : option (hst
   | [] => Some st
   | o :: r => match cstep c st o with None => None | Some st' => crun c st' r end
   end.
+
+(* full-strength reading of "the heap allocator reports a double free instead of corrupting itself",
+   on the memory-level model: dealloc of any non-nil pointer that is not a live block panics *)
+Definition heap_mem_invalid_free_reported_full : Prop :=
+  forall c ops s live p, hcfg_ok c -> Forall hop_usize ops ->
+    crun c (heap_init_state, []) ops = Some (s, live) -> h_initialized s = true ->
+    0 < p < two64 -> ~ In p (map b_addr live) ->
+    hp_dealloc s p = HPanic.
